@@ -111,7 +111,7 @@ func mk(t *Term) *Term {
 			t.hasB = true
 		}
 	}
-	if t.Op == "forall" || t.Op == "exists" {
+	if t.Op == "forall" || t.Op == "exists" || t.Op == "lambda" {
 		// still may contain outer bound variables; conservatively keep hasB
 		// so it is printed inline.
 		t.hasB = true
@@ -761,9 +761,25 @@ func Select(a, i *Term) *Term {
 				a = a.Args[0]
 				continue
 			}
+			// read over write: expand when the chain is short or ends in an
+			// array comprehension (then everything beta-reduces to scalars)
+			n := 0
+			root := a
+			for root.Op == "store" && n < 200 {
+				root = root.Args[0]
+				n++
+			}
+			if root.Op == "lambda" && n < 200 || (n <= 24 && a.S.Elem.Kind != SArray) {
+				return Ite(Eq(a.Args[1], i), a.Args[2], Select(a.Args[0], i))
+			}
 		case "constarr":
 			return a.Args[0]
+		case "lambda":
+			return Subst(a.Args[0], map[*Term]*Term{a.Bound[0]: i})
 		case "ite":
+			if a.Args[1].Op == "lambda" || a.Args[2].Op == "lambda" {
+				return Ite(a.Args[0], Select(a.Args[1], i), Select(a.Args[2], i))
+			}
 			// push select through ite of arrays when both branches simplify
 			if a.Args[1].Op == "store" || a.Args[2].Op == "store" || a.Args[1].Op == "constarr" || a.Args[2].Op == "constarr" {
 				x := Select(a.Args[1], i)
@@ -788,6 +804,15 @@ func Store(a, i, v *Term) *Term {
 		return a
 	}
 	return mk(&Term{Op: "store", S: a.S, Args: []*Term{a, i, v}})
+}
+
+// ---- array comprehension ----
+
+// Lambda is the array whose element at index b is body (b a bound variable).
+// Select on it is beta-reduced by the simplifier, so that array copies,
+// ranges of fresh values and frames never need quantified axioms.
+func Lambda(b *Term, body *Term) *Term {
+	return mk(&Term{Op: "lambda", S: ArrSort(b.S, body.S), Args: []*Term{body}, Bound: []*Term{b}})
 }
 
 // ---- quantifiers ----
@@ -885,6 +910,8 @@ func rebuild(x *Term, a []*Term) *Term {
 		return Store(a[0], a[1], a[2])
 	case "constarr":
 		return ConstArr(x.S, a[0])
+	case "lambda":
+		return mk(&Term{Op: "lambda", S: x.S, Args: a, Bound: x.Bound})
 	case "forall":
 		return mk(&Term{Op: "forall", S: BoolSort, Args: a, Bound: x.Bound, Pats: x.Pats})
 	case "exists":
@@ -898,6 +925,7 @@ func rebuild(x *Term, a []*Term) *Term {
 // ---- printing ----
 
 type Printer struct {
+	hasLambda bool
 	sb      strings.Builder
 	defined map[*Term]string
 	vars    map[string]*Sort
@@ -956,6 +984,9 @@ func (p *Printer) expr(t *Term) string {
 		s = fmt.Sprintf("((_ sign_extend %d) %s)", t.P1, args[0])
 	case "constarr":
 		s = fmt.Sprintf("((as const %s) %s)", t.S, args[0])
+	case "lambda":
+		s = fmt.Sprintf("(lambda ((|%s| %s)) %s)", t.Bound[0].Name, t.Bound[0].S, args[0])
+		p.hasLambda = true
 	case "forall", "exists":
 		var bs []string
 		for _, b := range t.Bound {
